@@ -108,7 +108,8 @@ def gen_seg(rng, n, tier):
     for _ in range(n):
         k = rng.randint(3, 9)
         vals = rng.choice([[0, 1, 2], [1, 3, 4, 9], [-2, -1, 0, 1, 3], [-0.5, -4, 2, 0.25], [-1, -3, -8], [0.5, 0.25, 1.75, 3]])
-        out.append({'K': [[rng.choice(vals) for _ in range(k)] for _ in range(k)], 'mode': rng.choice([0, 1])})
+        out.append({'K': [[rng.choice(vals) for _ in range(k)] for _ in range(k)], 'mode': rng.choice([0, 1]),
+                    'via': rng.choice(['segmentation', 'segmentation', 'simplification', 'simplify']), 'verbose': rng.random() < 0.5})
     return out
 
 
@@ -130,8 +131,19 @@ def run_seg(case):
     tr = Track([Obs(ENUCoords(i, 0, 0), ObsTime.readUnixTime(i)) for i in range(len(K))])
     glob = None if case['mode'] == 0 else 7          # with and without the global parameter
     cost = (lambda t, i, j: float(K[i][j + 1])) if glob is None else (lambda t, i, j, g: float(K[i][j + 1]))
-    out = sg.optimalSegmentation(tr, cost, glob, case['mode'], False)
-    return {'out': [int(v) for v in out]}
+    via = case.get('via', 'segmentation')
+    if via == 'segmentation':
+        out = sg.optimalSegmentation(tr, cost, glob, case['mode'], False)
+        return {'out': [int(v) for v in out]}
+    # the delegating entry points of simplification: the kept observations are the break candidates of the optimal list
+    import tracklib.algo.simplification
+    sp = sys.modules['tracklib.algo.simplification']
+    if via == 'simplification':
+        r = sp.optimalSimplification(tr, cost, glob, case['mode'])
+    else:
+        cost3 = lambda t, i, j: float(K[i][j + 1])
+        r = sp.simplify(tr, cost3, sp.MODE_SIMPLIFY_FREE if case['mode'] == 0 else sp.MODE_SIMPLIFY_FREE_MAXIMIZE, verbose=case.get('verbose', True))
+    return {'out': [int(r.getObs(i).position.getX()) for i in range(r.size())]}
 
 
 def with_matrix(f):
@@ -141,8 +153,8 @@ def with_matrix(f):
 def shrink_seg(case):
     K = case['K']
     if len(K) > 4:
-        yield {'K': [row[:-1] for row in K[:-1]], 'mode': case['mode']}
-        yield {'K': [row[1:] for row in K[1:]], 'mode': case['mode']}
+        yield dict(case, K=[row[:-1] for row in K[:-1]])
+        yield dict(case, K=[row[1:] for row in K[1:]])
 
 
 S_SEG = Stream(
